@@ -288,3 +288,25 @@ def check(ctx):
         for n in thr:
             ok2 = len(n.args) >= 3 and ast.unparse(n.args[1]) == u(wb[0][1]["I"]) and ast.unparse(n.args[2]) == u(wb[0][1]["OUT"])
             ctx.ob("R17-c", wrap, "the threaded wrap_bio call uses the same BIO order", ok2, node=stmt_of(n), detail="" if ok2 else f"`{norm(stmt_of(n))}`", by=("bio_in, bio_out",))
+
+    # ---- R17-d the convenience wrappers hand their configuration to wrap() unchanged ---------------------------------------------------
+    hw = ctx.fn("TLSListener.serve.handler_wrapper", TLS)
+    cn = ctx.fn("TLSConnectable.connect", TLS)
+    for f, need in ((hw, {"ssl_context": "self.ssl_context", "standard_compatible": "self.standard_compatible"}),
+                    (cn, {"hostname": "self.hostname", "ssl_context": "self.ssl_context", "standard_compatible": "self.standard_compatible"})):
+        wc = [n for n in own_walk(f.node) if isinstance(n, ast.Call) and ast.unparse(n.func) == "TLSStream.wrap"]
+        if ctx.need("R17-d", f, "`TLSStream.wrap(...)`", len(wc), 1):
+            kws = {k.arg: ast.unparse(k.value) for k in wc[0].keywords}
+            miss = {k: v for k, v in need.items() if kws.get(k) != v}
+            ctx.ob("R17-d", f, f"{f.qual} passes {sorted(need)} on to TLSStream.wrap", not miss, node=stmt_of(wc[0]),
+                   detail="" if not miss else f"`{norm(stmt_of(wc[0]))}` does not forward {miss}: the stream would silently use wrap()'s defaults "
+                                              f"(e.g. report a truncation with the wrong error class)", by=tuple(f"{k}={v}" for k, v in need.items()))
+            extra = {k: v for k, v in kws.items() if k not in need and k not in ("server_side",)}
+            ctx.ob("R17-d", f, f"{f.qual} adds nothing of its own to the wrap() call", not extra, node=stmt_of(wc[0]), detail="" if not extra else f"unexpected arguments {extra}", by=("no extra kwargs",))
+    for q, attrs in (("TLSConnectable.__init__", ("hostname", "standard_compatible")),):
+        f = ctx.fn(q, TLS)
+        for a in attrs:
+            okk = len(ctx.sites(f, f"self.{a} = {a}")) == 1
+            ctx.ob("R17-d", f, f"{q} keeps `{a}` as given", okk, detail="" if okk else f"no `self.{a} = {a}`", by=(f"self.{a} = {a}",))
+    from .common import iteration_protocol
+    iteration_protocol(ctx, "R17-d", "ByteReceiveStream")
